@@ -3,6 +3,8 @@ CONSTANTS
   Cap = 4
   Procs = {1, 2, 3, 4}
   Prog <- P4
+  MaskedFull = FALSE
+  StaleCell = FALSE
   Textbook = FALSE
 INVARIANT LinOK
 CHECK_DEADLOCK FALSE
